@@ -1690,12 +1690,9 @@ namespace bloch::compiler {
                         throw BlochError(ErrorCategory::Semantic, node.line, node.column,
                                          "return type mismatch");
                     }
-                } else if (!m_currentReturn.className.empty()) {
-                    if (!isAssignableType(m_currentReturn, actual)) {
-                        throw BlochError(ErrorCategory::Semantic, node.line, node.column,
-                                         "return type mismatch");
-                    }
-                } else if (!matchesPrimitive(m_currentReturn.value, actual.value)) {
+                } else if (!isAssignableType(m_currentReturn, actual)) {
+                    // Covers primitive and class/array return types alike; a class or array
+                    // value is never a valid result of a primitive-typed function.
                     throw BlochError(ErrorCategory::Semantic, node.line, node.column,
                                      "return type mismatch");
                 }
@@ -1858,7 +1855,7 @@ namespace bloch::compiler {
                         throw BlochError(ErrorCategory::Semantic, node.line, node.column,
                                          "cannot assign null to '" + node.name + "'");
                     }
-                } else if (valType.value != ValueType::Unknown &&
+                } else if (!(valType.value == ValueType::Unknown && valType.className.empty()) &&
                            !isAssignableType(targetType, valType)) {
                     throw BlochError(ErrorCategory::Semantic, node.line, node.column,
                                      "assignment to '" + node.name + "' expects '" +
@@ -1883,14 +1880,15 @@ namespace bloch::compiler {
                                          "cannot assign null to field '" + node.name + "'");
                     }
                 }
+                bool valueUnknown = valType.value == ValueType::Unknown && valType.className.empty();
                 if (!targetType.className.empty() && valType.value != ValueType::Null &&
-                    valType.value != ValueType::Unknown && !isAssignableType(targetType, valType)) {
+                    !valueUnknown && !isAssignableType(targetType, valType)) {
                     throw BlochError(ErrorCategory::Semantic, node.line, node.column,
                                      "assignment to field '" + node.name + "' expects '" +
                                          typeLabel(targetType) + "'");
-                } else if (field->type.value != ValueType::Unknown &&
-                           valType.value != ValueType::Unknown &&
-                           !matchesPrimitive(targetType.value, valType.value)) {
+                } else if (field->type.value != ValueType::Unknown && !valueUnknown &&
+                           (!valType.className.empty() ||
+                            !matchesPrimitive(targetType.value, valType.value))) {
                     throw BlochError(ErrorCategory::Semantic, node.line, node.column,
                                      "assignment to field '" + node.name + "' expects '" +
                                          typeToString(targetType.value) + "'");
@@ -2527,7 +2525,7 @@ namespace bloch::compiler {
                         throw BlochError(ErrorCategory::Semantic, node.line, node.column,
                                          "cannot assign null to '" + node.name + "'");
                     }
-                } else if (valType.value != ValueType::Unknown &&
+                } else if (!(valType.value == ValueType::Unknown && valType.className.empty()) &&
                            !isAssignableType(targetType, valType)) {
                     throw BlochError(ErrorCategory::Semantic, node.line, node.column,
                                      "assignment to '" + node.name + "' expects '" +
@@ -2552,14 +2550,15 @@ namespace bloch::compiler {
                                          "cannot assign null to field '" + node.name + "'");
                     }
                 }
+                bool valueUnknown = valType.value == ValueType::Unknown && valType.className.empty();
                 if (!targetType.className.empty() && valType.value != ValueType::Null &&
-                    valType.value != ValueType::Unknown && !isAssignableType(targetType, valType)) {
+                    !valueUnknown && !isAssignableType(targetType, valType)) {
                     throw BlochError(ErrorCategory::Semantic, node.line, node.column,
                                      "assignment to field '" + node.name + "' expects '" +
                                          typeLabel(targetType) + "'");
-                } else if (field->type.value != ValueType::Unknown &&
-                           valType.value != ValueType::Unknown &&
-                           !matchesPrimitive(targetType.value, valType.value)) {
+                } else if (field->type.value != ValueType::Unknown && !valueUnknown &&
+                           (!valType.className.empty() ||
+                            !matchesPrimitive(targetType.value, valType.value))) {
                     throw BlochError(ErrorCategory::Semantic, node.line, node.column,
                                      "assignment to field '" + node.name + "' expects '" +
                                          typeToString(targetType.value) + "'");
@@ -2632,14 +2631,15 @@ namespace bloch::compiler {
                                      "cannot assign null to field '" + node.member + "'");
                 }
             }
+            bool valueUnknown = valType.value == ValueType::Unknown && valType.className.empty();
             if (!targetType.className.empty() && valType.value != ValueType::Null &&
-                valType.value != ValueType::Unknown && !isAssignableType(targetType, valType)) {
+                !valueUnknown && !isAssignableType(targetType, valType)) {
                 throw BlochError(ErrorCategory::Semantic, node.line, node.column,
                                  "assignment to field '" + node.member + "' expects '" +
                                      typeLabel(targetType) + "'");
-            } else if (targetType.value != ValueType::Unknown &&
-                       valType.value != ValueType::Unknown &&
-                       !matchesPrimitive(targetType.value, valType.value)) {
+            } else if (targetType.value != ValueType::Unknown && !valueUnknown &&
+                       (!valType.className.empty() ||
+                        !matchesPrimitive(targetType.value, valType.value))) {
                 throw BlochError(ErrorCategory::Semantic, node.line, node.column,
                                  "assignment to field '" + node.member + "' expects '" +
                                      typeToString(targetType.value) + "'");
